@@ -2,7 +2,7 @@
 //
 // stdin (one scenario after the other):
 //   scn <name>
-//   shape <TS|TSS|TSD|TSL|TSB|TSW|TSD_TSS|TSB_TSL|TSD_TSB>
+//   shape <TS|TSS|TSD|TSL|TSB|TSW|TSD_TSS|TSB_TSL|TSD_TSB|DTSL (dynamic TSL<TS<Int>>)|TSD_TSD>
 //   opt end=<H> late=<k> rr=<0|1>
 //   c <t> <verb>:<path>:<args> ...        one line per scripted cycle; path / args are comma separated integers
 //        verbs: set v | inv | add e | rem e | clr | del k | new k | touch | push v
@@ -196,7 +196,14 @@ namespace hgvc
                 case TSTypeKind::TSL:
                 case TSTypeKind::TSB:
                 {
-                    const std::size_t n = child_count(s);
+                    // a dynamic (unsized) list has as many children as were created so far
+                    const bool        dynamic = s->kind == TSTypeKind::TSL && s->fixed_size() == 0;
+                    std::size_t       n       = child_count(s);
+                    if (dynamic)
+                    {
+                        auto l = v.as_list();
+                        n      = l.size();
+                    }
                     std::vector<long> mi;
                     std::string       ch = "[";
                     for (std::size_t i = 0; i < n; ++i)
@@ -226,7 +233,7 @@ namespace hgvc
                         }
                     }
                     std::sort(mi.begin(), mi.end());
-                    o += ",\"mi\":" + jlist(mi) + ",\"ch\":" + ch;
+                    o += ",\"mi\":" + jlist(mi) + ",\"sz\":" + std::to_string(n) + ",\"ch\":" + ch;
                     o += ",\"dv\":" + jopt_delta(s, v.delta_value());
                     break;
                 }
@@ -276,7 +283,12 @@ namespace hgvc
                     auto  child = mut.at(key.view());
                     cur         = TSOutputView{root.output(), child, now};
                 }
-                else if (s->kind == TSTypeKind::TSL || s->kind == TSTypeKind::TSB) { cur = cur.indexed_child_at(static_cast<std::size_t>(p)); }
+                else if (s->kind == TSTypeKind::TSL)
+                {
+                    auto l = cur.as_list();      // at() grows a dynamic list up to the index
+                    cur    = l.at(static_cast<std::size_t>(p));
+                }
+                else if (s->kind == TSTypeKind::TSB) { cur = cur.indexed_child_at(static_cast<std::size_t>(p)); }
                 else { throw std::logic_error("hgv_coll: path descends into a leaf"); }
             }
             const auto        *s = cur.schema();
